@@ -245,7 +245,7 @@ func (m *Model) Enabled(t int) bool {
 }
 
 // Step performs the next operation of thread t (must be enabled).  ok is the outcome of
-// the sync (used at PHandle only).  spawned >= 0 is the tid of a goroutine created by the
+// the sync (at PHandle) / of creating the sync client (at PCmp).  spawned >= 0 is the tid of a goroutine created by the
 // step.
 func (m *Model) Step(t int, ok bool) (y Yield, spawned int) {
 	spawned = -1
@@ -337,6 +337,15 @@ func (m *Model) Step(t int, ok bool) (y Yield, spawned int) {
 		th.Msg = head
 		if head == 0 || th.Stop == head {
 			th.PC = m.exitPC(th.Kind)
+			break
+		}
+		if !ok && th.Kind == KAsync {
+			// makeSyncer fails: asyncSyncFailed sends the error event, nothing is synced.
+			// (Not provoked by this harness: with a nil libp2p host makeSyncer cannot
+			// fail without dereferencing the host; the branch is kept for parity with
+			// the Coq model.)
+			m.Events = append(m.Events, Event{Pub: p, Head: head, Err: true})
+			th.PC = m.exitPC(KAsync)
 			break
 		}
 		if head < th.Stop {
